@@ -68,6 +68,38 @@ func sharedDigestRule(c *Ctx, p *Prog, rule string, relPkgs ...string) {
 			if !ok {
 				return
 			}
+			// a read buffer in a package-level variable is shared by all connections that are being served
+			{
+				cm := call.Common()
+				id := p.CalleeID(cm)
+				var buf ssa.Value
+				switch {
+				case cm.IsInvoke() && cm.Method.Name() == "Read" && len(cm.Args) == 1:
+					buf = cm.Args[0]
+				case (id == "io.ReadFull" || id == "io.ReadAtLeast") && len(cm.Args) >= 2:
+					buf = cm.Args[1]
+				case id == "builtin:copy":
+					buf = cm.Args[0]
+				}
+				for d := 0; buf != nil && d < 6; d++ {
+					switch x := unspill(buf).(type) {
+					case *ssa.Slice:
+						buf = x.X
+						continue
+					case *ssa.UnOp:
+						if g, ok := x.X.(*ssa.Global); ok && g.Pkg != nil && strings.HasPrefix(g.Pkg.Pkg.Path(), modulePath) && x.Op == token.MUL {
+							n++
+							bad = "the buffer filled at " + p.InstrPos(call) + " is the package-level variable " + g.Name() + ", which every connection of the process shares"
+						}
+					case *ssa.Global:
+						if x.Pkg != nil && strings.HasPrefix(x.Pkg.Pkg.Path(), modulePath) {
+							n++
+							bad = "the buffer filled at " + p.InstrPos(call) + " is the package-level variable " + x.Name() + ", which every connection of the process shares"
+						}
+					}
+					break
+				}
+			}
 			r, m, _ := recvOf(call)
 			if r == nil {
 				return
